@@ -9,10 +9,15 @@ opened (`EvidenceIterator`).  This file models that layer **as coded**, for rela
 a time over several sessions (keys), together with the claim loop's iterator and seals, and next
 to it the same operations over a plain map (`Ref…`): the cache should be unobservable.
 
-It is not: `GetWithoutLock` puts a value read from the DB into the LRU with a bare `Cache.Add`,
-which silently evicts the oldest cached entry when the cache is full — an entry that may never
-have been flushed.  `fixedGet := true` selects the repaired read path (add through the
-flush-aware helper).
+`fixedGet := true` is the code as it is (fix 534ec75: a value read from the DB enters the LRU
+through the flush-aware helper).  `fixedGet := false` is the historical read path: a bare
+`Cache.Add`, which silently evicted the oldest cached entry of a full cache — an entry that may
+never have been flushed.
+
+The uniqueness test is exact membership here; the real bloom filter (sized for `max` elements,
+1% target) also refuses some FRESH relays as duplicates — an availability effect that only makes
+the node answer less, so the property (no duplicate, ≤ allowance, answered ⇒ recorded) is
+unaffected; the harness uses proofs that are not false positives of each other.
 -/
 namespace SerialCache
 
